@@ -372,6 +372,91 @@ pub fn play_confined(g: &mut Game, rng: &mut Rng, region: &[usize], max_actions:
     }
 }
 
+/// After a REAL setup: each side shuttles one non-rabbit piece of its second rank one square forward
+/// and back, one step and a pass per turn (the very first turn of each side is forward, back, forward,
+/// pass - the board equals the turn's start after the second step).  The opening position and the
+/// three positions after it recur every four turns, so the repetition rules are exercised on the
+/// history that the SETUP created - which a parsed position never has.
+pub fn play_shuttle(g: &mut Game, rng: &mut Rng, turns: usize) {
+    let mut shuttle: [Option<(usize, Direction)>; 2] = [None, None]; // (home square, forward direction)
+    let mut first_turn_done = [false, false];
+    let mut t = 0;
+    while t < turns && !g.dead && g.top().is_play_phase() {
+        let gs = g.top().clone();
+        let side = if gs.is_p1_turn_to_move() { 0 } else { 1 };
+        let fwd = if side == 0 { Direction::Up } else { Direction::Down };
+        let back = if side == 0 { Direction::Down } else { Direction::Up };
+        let c = cells(gs.piece_board());
+        if shuttle[side].is_none() {
+            let row: Vec<usize> = if side == 0 { (48..56).collect() } else { (8..16).collect() };
+            let cand: Vec<usize> = row
+                .into_iter()
+                .filter(|&i| c[i] != 0 && c[i] != 1 && c[i] != 7 && dest_of(i, fwd).map_or(false, |d| c[d] == 0))
+                .collect();
+            if cand.is_empty() {
+                return;
+            }
+            shuttle[side] = Some((cand[rng.below(cand.len())], fwd));
+        }
+        let (home, _) = shuttle[side].unwrap();
+        let away = dest_of(home, fwd).unwrap();
+        let at_home = c[home] != 0 && c[away] == 0;
+        let plan: Vec<Action> = if !first_turn_done[side] && at_home {
+            vec![
+                Action::Move(Square::from_index(home as u8), fwd),
+                Action::Move(Square::from_index(away as u8), back),
+                Action::Move(Square::from_index(home as u8), fwd),
+                Action::Pass,
+            ]
+        } else if at_home {
+            vec![Action::Move(Square::from_index(home as u8), fwd), Action::Pass]
+        } else {
+            vec![Action::Move(Square::from_index(away as u8), back), Action::Pass]
+        };
+        first_turn_done[side] = true;
+        for a in plan.iter() {
+            if g.dead {
+                return;
+            }
+            let cur = g.top().clone();
+            if cur.is_p1_turn_to_move() != (side == 0) {
+                break; // the turn has ended
+            }
+            let off = match guarded(|| cur.valid_actions()) {
+                Ok(x) => x,
+                Err(p) => {
+                    g.tr.panic_event(&p);
+                    g.dead = true;
+                    return;
+                }
+            };
+            if off.is_empty() {
+                return;
+            }
+            // the planned action if the engine offers it, otherwise (it is withheld) anything offered
+            let pick = if off.contains(a) { *a } else { *rng.pick(&off) };
+            if !g.step(&pick) {
+                return;
+            }
+        }
+        // finish the turn if the plan did not
+        let mut guard = 0;
+        while !g.dead && g.top().is_play_phase() && g.top().is_p1_turn_to_move() == (side == 0) && guard < 4 {
+            let cur = g.top().clone();
+            let off = guarded(|| cur.valid_actions()).unwrap_or_default();
+            if off.is_empty() {
+                return;
+            }
+            let pick = if off.contains(&Action::Pass) { Action::Pass } else { *rng.pick(&off) };
+            if !g.step(&pick) {
+                return;
+            }
+            guard += 1;
+        }
+        t += 1;
+    }
+}
+
 /// Setup, exhaustively over COUNT VECTORS (how many pieces of each type the side to place has put
 /// down): every count vector is visited once, and every placement offered there is observed - the
 /// same reduction as the VIEW of spec/mc/MC_setup.tla.  Gold's vectors are explored first; Silver's
